@@ -150,6 +150,33 @@ Fixpoint edf_run (k : nat) (l : list edfe) : list Z :=
   | S k' => let '(l', i) := edf_step l in i :: edf_run k' l'
   end.
 
+(* exact-arithmetic EDF (the rational idealisation of edfWrr): with exact deadlines the
+   deadline of item i after c_i picks is (c_i+1)/w_i, so the state is the vector of pick
+   counts; Next picks the least (c_i+1)/w_i, ties to the lower index (orderOffset) *)
+Fixpoint q_argmin (bi bc bw : Z) (i : Z) (cs ws : list Z) : Z * Z * Z :=
+  match cs, ws with
+  | c :: cr, w :: wr =>
+    if (c + 1) * bw <? (bc + 1) * w then q_argmin i c w (i + 1) cr wr
+    else q_argmin bi bc bw (i + 1) cr wr
+  | _, _ => (bi, bc, bw)
+  end.
+Definition q_next (cs ws : list Z) : Z :=
+  match cs, ws with
+  | c :: cr, w :: wr => fst (fst (q_argmin 0 c w 1 cr wr))
+  | _, _ => -1
+  end.
+Fixpoint bump (i : Z) (cs : list Z) : list Z :=
+  match cs with
+  | [] => []
+  | c :: r => if i =? 0 then (c + 1) :: r else c :: bump (i - 1) r
+  end.
+(* pick counts after k picks *)
+Fixpoint q_run (k : nat) (cs ws : list Z) : list Z :=
+  match k with
+  | O => cs
+  | S k' => q_run k' (bump (q_next cs ws) cs) ws
+  end.
+
 (* ------------------------------------------------------------------ *)
 (* ops; cfg = [num1; den1; num2; den2; ...] drop categories of the picker
    [1; w1; ...; wn]           randomWRR with these weights, every value of the random source:
